@@ -10,7 +10,10 @@ CONSTANTS
   HasReader = TRUE
   ClosesSocket = TRUE
   PopAtomic = TRUE
+  WriteWakes = {"ctx", "sock"}
+  LockWakes = {"ctx"}
+  CloseTakesWriteLock = FALSE
   ParkWakes = "conn"
   Noise = {"silent", "unsolicited", "garbage"}
 INVARIANTS NoFalseError SlotsSane OnceEach SockOnce DoneOnceIfReaderOnly
-PROPERTIES Ends CloseCompletes
+PROPERTIES EndsButD22 CloseCompletes
